@@ -6,7 +6,8 @@ PROP = dict(
                        "finished_implies_captured (acknowledged captures of deleted rows are complete records on disk)",
                        "refetched_after_restart (rows not yet pre-processed in run 1)",
                        "refetched_after_restart_even_if_preprocessed",
-                       "warc_readable_up_to_last_complete_record"]),
+                       "warc_readable_up_to_last_complete_record",
+                       "row_deleted_only_for_a_seed_whose_tree_is_done (also when the finish falls into a graceful stop)"]),
         # "finished implies captured" at the instant of the finish report (no kill needed): whole real crawls of sites with
         # large bodies; at every fin.finished the WARC files on disk are read (monitor 10)
         dict(driver="pipebodies", quick=10, thorough=400, shard=5, noshrink=True,
